@@ -26,7 +26,7 @@ pub fn spec() -> Spec {
     Spec {
         prop: "C02",
         level: "exploration",
-        rule: "Twin processes (own HashMap seeds and directories; the child twin is stopped and reopened after commits) replay one recorded call list; every response and Obs at every block boundary compared after key-order canonicalisation and zeroing mineTimestamp, list order kept. Plus sha256 digests of a fixed, seed-independent corpus (all contract ops, every precompile, deposits/withdrawals, parked+drained signed transactions, multi-tx blocks) on regtest/signet/bitcoin against /verif/golden/<network>.json recorded under the same protocol/db version. Time-shifted twin: a short history with supplied timestamps 0 / u64::MAX and server-generated hashes is served by two instances 1.2 s apart (wall-clock time must not leak); the golden corpus ends with the same calls. Non-trivial = a compared list-valued result with >=2 elements (logs, block transaction lists, raw receipts, trace strings); distinct by (history digest, query).",
+        rule: "Twin processes (own HashMap seeds and directories; the child twin is stopped and reopened after commits) replay one recorded call list; every response and Obs at every block boundary compared after key-order canonicalisation and zeroing mineTimestamp, list order kept. Plus sha256 digests of a fixed, seed-independent corpus (all contract ops, every precompile, deposits/withdrawals, parked+drained signed transactions, multi-tx blocks) on regtest/signet/bitcoin against /verif/golden/<network>.json recorded under the same protocol/db version. Time-shifted twin: a short history with supplied timestamps 0 / u64::MAX and server-generated hashes is served by two instances 1.2 s apart (wall-clock time must not leak); the golden corpus ends with the same calls. Flood twin (one shard in sixteen): more than a thousand transactions parked at once by 120-140 senders, then predecessors arrive; both processes must show the same pool and the same drains. Non-trivial = a compared list-valued result with >=2 elements (logs, block transaction lists, raw receipts, trace strings); distinct by (history digest, query).",
         assumptions: vec![
             "golden digests pin today's behaviour of the listed corpus under protocol version/db version recorded in the golden file; if versions differ the golden comparison is skipped and reported as inconclusive".into(),
             "eth_call-type observations are restricted to time-independent code".into(),
@@ -114,9 +114,64 @@ fn twin_case(ctx: &WorkerCtx, rep: &mut WorkerReport, case_seed: u64, blocks: u6
     let mut p = new_driver("C02");
     grow(&mut w, &mut p, blocks, CommitPolicy::Random(35), &mut rng);
     let ops: Vec<Op> = p.log.iter().map(|(o, _)| o.clone()).collect();
-    let hd = digest_ops(&ops);
     let u = universe(&[&p.log], p.height.max(0) as u64, Some(&w));
     drop_driver(p);
+    compare_with_child_twin(ctx, rep, ops, u, net, case_seed);
+}
+
+/// More than a thousand transactions parked at once (130 senders with nonce gaps, nine each), then a
+/// few predecessors arrive: whatever the pool does with that many entries, two processes must do the same.
+fn flood_twin(ctx: &WorkerCtx, rep: &mut WorkerReport, case_seed: u64) {
+    let (net, _) = net_for_shard(ctx.shard);
+    let chain = rpc::chain_id_for(net);
+    let mut rng = crate::rng::Rng::new(case_seed);
+    let mut p = new_driver("C02");
+    p.exec(Op::Init { hash: hist::ZERO_HASH.into(), ts: 1, height: 0 });
+    let senders = 120 + rng.below(20);
+    let data = asm::tool_init();
+    let mut uniq = 0u64;
+    let signers: Vec<hist::Signer> = (0..senders).map(|i| hist::Signer::new_seeded(case_seed.wrapping_add(i))).collect();
+    // three blocks of parking, all inside the ten-block life of an entry
+    for b in 0..3u64 {
+        let h = hist::bh(0xf100d + b);
+        for (si, s) in signers.iter().enumerate() {
+            for k in 0..3u64 {
+                let nonce = 1 + b * 3 + k;
+                uniq += 1;
+                let mut d2 = data.clone();
+                d2.extend_from_slice(&[0xee, (si % 251) as u8, (si / 251) as u8]);
+                let raw = s.sign(Some(chain), nonce, None, &d2);
+                p.exec(Op::Transact { raw: format!("0x{}", raw), enc: Enc::Hex, ctx: Ctx { ts: 10 + b, hash: h.clone(), idx: 0 }, iid: format!("flood-{}i0", uniq), len: 100_000, txid: hist::ZERO_HASH.into() });
+            }
+        }
+        p.exec(Op::Finalise { ts: 10 + b, hash: h, count: 0 });
+    }
+    // predecessors of a few senders: each drains what is left of that sender's chain
+    let h = hist::bh(0xf1011);
+    let mut count = 0u64;
+    for si in (0..signers.len()).step_by(17) {
+        uniq += 1;
+        let mut d2 = data.clone();
+        d2.extend_from_slice(&[0xee, (si % 251) as u8, (si / 251) as u8]);
+        let raw = signers[si].sign(Some(chain), 0, None, &d2);
+        let r = p.exec(Op::Transact { raw: format!("0x{}", raw), enc: Enc::Hex, ctx: Ctx { ts: 20, hash: h.clone(), idx: count }, iid: format!("flood-{}i0", uniq), len: 100_000, txid: hist::ZERO_HASH.into() });
+        count += hist::receipts_in(&r).len() as u64;
+    }
+    p.exec(Op::Finalise { ts: 20, hash: h, count });
+    p.exec(Op::Commit);
+    p.exec(Op::Mine { n: 2, ts: 21 });
+    let ops: Vec<Op> = p.log.iter().map(|(o, _)| o.clone()).collect();
+    let mut u = universe(&[&p.log], p.height.max(0) as u64, None);
+    for s in &signers {
+        u.addrs.insert(hist::addr_hex(&s.addr));
+    }
+    drop_driver(p);
+    rep.count("flood_parked_transactions", senders * 9);
+    compare_with_child_twin(ctx, rep, ops, u, net, case_seed);
+}
+
+fn compare_with_child_twin(ctx: &WorkerCtx, rep: &mut WorkerReport, ops: Vec<Op>, u: Universe, net: &str, case_seed: u64) {
+    let hd = digest_ops(&ops);
     // child process twin
     let work = rpc::fresh_dir("C02");
     let opsfile = work.join("ops.json");
@@ -437,6 +492,10 @@ pub fn worker(ctx: &WorkerCtx) -> WorkerReport {
     let mut rng = ctx.rng();
     if ctx.shard < 6 || ctx.shard % 16 == 0 {
         time_shifted_twin(ctx, &mut rep);
+    }
+    if ctx.shard % 16 == 9 {
+        let cs = rng.next();
+        flood_twin(ctx, &mut rep, cs);
     }
     let (cases, blocks) = if ctx.thorough() { (5, 12) } else { (1, 8) };
     for _ in 0..cases {
